@@ -157,6 +157,21 @@ class Batch:
         self.frames.append(f)
         return f
 
+    def add_cks(self, p, cks, dst=None, v6=False):
+        """the same datagram with a chosen UDP checksum field (None: the correct one, sent as 0xffff when it computes
+        to zero)"""
+        s, d = gens.addr_pair(v6, None, dst)
+        sb, db = net.ip_bytes(s), net.ip_bytes(d)
+        self.sport = (self.sport + 1) % 65536
+        u = net.udp(sb, db, self.sport, 53, p, cks=cks)
+        if cks is None and u[6:8] == b"\0\0":
+            u = u[:6] + b"\xff\xff" + u[8:]
+        f = net.eth(net.MAC_SELF, net.MAC_PEER, 0x0800, net.ipv4(sb, db, 17, u)) if len(sb) == 4 else \
+            net.eth(net.MAC_SELF, net.MAC_PEER, 0x86DD, net.ipv6(sb, db, 17, u))
+        ORACLE[f] = (p, d, v6)
+        self.frames.append(f)
+        return f
+
     def scripts(self, per=150):
         for i in range(0, len(self.frames), per):
             yield Script(self.cfg, self.frames[i:i + per], self.tag)
@@ -299,9 +314,37 @@ def generate(tier, rng):
             b.add(query(qid=0x7000 + k, questions=tuple((rnd_name(rng), 1, 1) for _ in range(k))))
         b.add(query(questions=(((b"a",), 28, 1),)))
         yield from b.scripts()
+    # J. UDP checksum fields: the correct one at its zero boundary (transmitted as 0xffff), absent (0), and wrong --
+    #    the property answers every IN/A query, whatever the transport checksum says
+    b = Batch("udp-checksum-fields")
+    for v6 in (False, True):
+        for qs in ((((b"www", b"example", b"com"), 1, 1),), (((b"a",), 1, 1), ((b"b",), 1, 1))):
+            for dst in ([None, "192.168.100.200"] if not v6 else [None]):
+                b.add_cks(query(qid=zero_sum_id(b, qs, dst, v6), questions=qs), None, dst, v6)
+                b.add_cks(query(qid=0x6a01, questions=qs), 0, dst, v6)
+                b.add_cks(query(qid=0x6a02, questions=qs), 0x1234, dst, v6)
+                b.add_cks(query(qid=0x6a03, questions=qs), 0xFFFF, dst, v6)
+    yield from b.scripts()
+    # K. several handled IPv4 addresses: the answer names the address the query was sent to, not any other of them
+    for ips in (MANY_SELF + [gens.SELF6], MANY_SELF[::-1], MANY_SELF[2:4]):
+        b = Batch("several-self-addresses", Cfg(self_ips=ips, key=KEY))
+        for dst in MANY_SELF + ["10.0.0.77"]:
+            b.add(query(qid=rng.getrandbits(16) | 0x0100, questions=((rnd_name(rng), 1, 1), ((b"x",), 1, 1))), dst=dst)
+        yield from b.scripts()
+
+
+def zero_sum_id(batch, questions, dst=None, v6=False):
+    """the id for which the correct UDP checksum of the query batch.add_cks will build next computes to zero (sent as
+    0xffff): one id in 65536 for given addresses, ports and name"""
+    s, d = gens.addr_pair(v6, None, dst)
+    sb, db = net.ip_bytes(s), net.ip_bytes(d)
+    u = net.udp(sb, db, (batch.sport + 1) % 65536, 53, query(qid=0, questions=questions))
+    c = struct.unpack("!H", u[6:8])[0]          # checksum with id 0 = ~S; with id x it is ~(S + x): zero when S + x = 0xffff
+    return c if c else 0xFFFF
 
 
 DSTS = ["10.0.0.1", "0.0.0.0", "255.255.255.255", "192.168.100.200", "1.2.3.4", "127.0.0.1", "224.0.0.251"]
+MANY_SELF = ["10.0.0.1", "10.0.0.2", "10.0.0.3", "192.0.2.7", "203.0.113.250", "172.16.0.1"]
 
 
 def nontrivial(script):
@@ -342,6 +385,8 @@ def history_monitor(script, outs):
         p, dst, v6 = ORACLE[f]
         if v6:
             continue
+        if script.cfg.self_ips is not None and net.ip_bytes(dst) not in [net.ip_bytes(a) for a in script.cfg.self_ips]:
+            continue            # not addressed to the honeypot (C02): this property has nothing to say
         k = classify(p)
         a = app_payload(o)
         if k == "answer":
